@@ -1002,6 +1002,60 @@ Qed.
 
 End Facts.
 
+(* ---------------------------------------------------------------- C15 under concurrency: the bookkeeping invariant of the
+   sequential model (limits respected give or take one, in-flight sets = topics with buffered messages, ...) holds at every
+   point of every interleaving, whether or not traffic is shed *)
+Section Bounds.
+Variable c : cfg.
+Hypothesis Hvar : var c = v_fixed.
+
+Lemma tstep_box_inv s th s' th' o : Inv c (sb s) -> tstep c s th = (s', th', o) -> Inv c (sb s').
+Proof.
+  intros HI. unfold tstep. destruct (pc th) as [|m|t d|t|t m].
+  - destruct (todo th) as [|[m|t] rest].
+    + intros H; inversion H; subst; exact HI.
+    + unfold recv_enter. destruct (is_started s (m_topic m)).
+      * destruct (aget teqb (drainq s) (m_topic m)); intros H; inversion H; subst; exact HI.
+      * destruct (recv c (sb s) m) as [b' o'] eqn:Er. intros H; inversion H; subst. cbn [sb]. eapply recv_inv; eauto.
+    + unfold send_enter. set (b := sb s).
+      assert (Hb1 : Inv c (mkBox (adel teqb (pending b) t) (aset teqb (started b) t (epoch b))
+                     (match aget teqb (pending b) t with Some x => release (inflight b) t (senders x) | None => inflight b end)
+                     (epoch b) (lastGC b))).
+      { pose proof (drop_topic_inv c b t (aset teqb (started b) t (epoch b)) HI) as D.
+        apply D. intros t' Hne. left. apply (aget_aset_other teqb teqb_spec). exact Hne. }
+      destruct (match aget teqb (pending b) t with Some x => s_msgs x | None => [] end);
+        [|destruct (aget teqb (drainq s) t)]; intros H; inversion H; subst; exact Hb1.
+  - intros H; inversion H; subst; exact HI.
+  - intros H; inversion H; subst; exact HI.
+  - destruct (aget teqb (drainq s) t) as [[|m q]|]; intros H; inversion H; subst; exact HI.
+  - intros H; inversion H; subst; exact HI.
+Qed.
+
+Theorem concurrent_box_inv scripts sched : Inv c (sb (wbox (wrun c scripts sched))).
+Proof.
+  unfold wrun. assert (G : forall sched w, Inv c (sb (wbox w)) -> Inv c (sb (wbox (fold_left (wstep c) sched w)))).
+  { clear sched. induction sched as [|i sched IH]; intros w Hw; cbn [fold_left]; [exact Hw|].
+    apply IH. destruct w as [[s ths] log]. unfold wstep. destruct (nth_error ths i) as [th|]; [|exact Hw].
+    destruct (tstep c s th) as [[s' th'] o] eqn:Et. cbn [wbox fst] in *. eapply tstep_box_inv; eauto. }
+  apply G. apply Inv_box0.
+Qed.
+
+Theorem concurrent_bounds scripts sched :
+  let b := sb (wbox (wrun c scripts sched)) in
+  (forall t st src, aget teqb (pending b) t = Some st -> (nsrc src (s_msgs st) <= S (limit c))%nat) /\
+  (forall src, (length (topics_of b src) <= S (maxTopics c))%nat) /\
+  (forall src t, In t (topics_of b src) -> exists st, aget teqb (pending b) t = Some st /\ (1 <= count_of st src)%nat) /\
+  (forall t st, aget teqb (pending b) t = Some st -> aget teqb (started b) t = None).
+Proof.
+  intros b. pose proof (concurrent_box_inv scripts sched) as [Ic It Il Id _ _]. fold b in Ic, It, Il, Id.
+  split; [|split; [|split]].
+  - intros t st src Hg. destruct (Ic t st src Hg) as [A B]. lia.
+  - intros src. apply It.
+  - exact Il.
+  - exact Id.
+Qed.
+End Bounds.
+
 (* ---------------------------------------------------------------- the hypotheses are satisfiable *)
 Fixpoint pairwise_disjoint (l : list (list N)) : bool :=
   match l with
